@@ -1,12 +1,20 @@
 /-
-C05 - translator tie: `slices_overlap` and `align` (rig/place_and_route/allocate/utils.py) are
-regenerated from the source into `Gen/PyFun.lean`; they are proved equal to the model's functions.
+C05 - translator tie.  `slices_overlap`, `align` (rig/place_and_route/allocate/utils.py) and the whole of `allocate`
+(rig/place_and_route/allocate/greedy.py) are regenerated from the source into `Gen/PyFun.lean` on every run; they are
+proved equal to the model's functions here (semantically: unfold + fold / fuel lemmas + case splits).
 -/
 import RigModel.Model.C05
+import RigModel.Lemmas.C05
 import RigModel.Gen.PyFun
+import RigModel.Lemmas.C05Dict
+set_option linter.unusedSimpArgs false
+set_option linter.unusedVariables false
+set_option linter.unusedTactic false
+set_option linter.unreachableTactic false
 
 namespace Rig.C05
-open Rig.Gen
+open Rig.Gen Rig.PyDict
+open Rig.Gen.PyFun (pyWhile pyDictGet pyDictGetD pyDictSet pyDictMod pyOptGet)
 
 /-- `slices_overlap` as written in the source = the model -/
 theorem gen_slices_overlap (a b : Slice) :
@@ -14,5 +22,490 @@ theorem gen_slices_overlap (a b : Slice) :
 
 /-- `align` as written in the source = the model -/
 theorem gen_align (value alignment : Int) : PyFun.align value alignment = align value alignment := rfl
+
+
+def encS (s : Slice) : Int × Int := (s.start, s.stop)
+
+/-- the pointers of the other resources are untouched -/
+def OffEq (res : Nat) (rp rp' : List (Nat × Int)) : Prop := ∀ r, r ≠ res → rp'.lookup r = rp.lookup r
+
+theorem OffEq.refl (res : Nat) (rp : List (Nat × Int)) : OffEq res rp rp := fun _ _ => rfl
+theorem OffEq.trans {res : Nat} {a b c : List (Nat × Int)} (h1 : OffEq res a b) (h2 : OffEq res b c) : OffEq res a c :=
+  fun r hr => (h2 r hr).trans (h1 r hr)
+theorem OffEq.set (res : Nat) (rp : List (Nat × Int)) (v : Int) : OffEq res rp (pyDictSet rp res v) :=
+  fun r hr => lookup_pyDictSet_ne rp v hr
+
+/-- the overlap test of the scans, whichever way round the two ranges are passed -/
+theorem so_eq (pv : Int × Int) (r : Slice) :
+    PyFun.slices_overlap pv (encS r) = slicesOverlap ⟨pv.1, pv.2⟩ r := by
+  unfold PyFun.slices_overlap slicesOverlap
+  exact decide_eq_decide.mpr (by simp only [encS]; try omega)
+
+theorem so_eq' (pv : Int × Int) (r : Slice) :
+    PyFun.slices_overlap (encS r) pv = slicesOverlap ⟨pv.1, pv.2⟩ r := by
+  unfold PyFun.slices_overlap slicesOverlap
+  exact decide_eq_decide.mpr (by simp only [encS]; try omega)
+
+/-- one step of a reservation scan, as the model's `scan` does it on the pointer dict -/
+def ScanStep (res : Nat) (pv : Int × Int)
+    (F : List (Nat × Int) × Bool → Int × Int → List (Nat × Int) × Bool) : Prop :=
+  ∀ (rp : List (Nat × Int)) (b : Bool) (r : Slice),
+    F (rp, b) (encS r) = if slicesOverlap ⟨pv.1, pv.2⟩ r then (pyDictSet rp res r.stop, true) else (rp, b)
+
+/-- body of `for reservation in globally_reserved[resource]` -/
+theorem loop7_step (res : Nat) (pv : Int × Int) : ScanStep res pv (PyFun.allocate_loop7 res pv) := by
+  intro rp b r
+  unfold PyFun.allocate_loop7
+  simp only [so_eq, so_eq']
+  split <;> simp_all [encS]
+
+/-- body of `for reservation in local_reservations` -/
+theorem loop8_step (res : Nat) (pv : Int × Int) : ScanStep res pv (PyFun.allocate_loop8 res pv) := by
+  intro rp b r
+  unfold PyFun.allocate_loop8
+  simp only [so_eq, so_eq']
+  split <;> simp_all [encS]
+
+theorem gen_scan (res : Nat) (pv : Int × Int)
+    (F : List (Nat × Int) × Bool → Int × Int → List (Nat × Int) × Bool) (hF : ScanStep res pv F) :
+    ∀ (rs : List Slice) (rp : List (Nat × Int)) (p : Int) (b : Bool),
+    rp.lookup res = some p →
+    ∃ rp', List.foldl F (rp, b) (rs.map encS)
+        = (rp', (scan ⟨pv.1, pv.2⟩ rs (p, b)).2) ∧
+      rp'.lookup res = some (scan ⟨pv.1, pv.2⟩ rs (p, b)).1 ∧ OffEq res rp rp' := by
+  intro rs
+  induction rs with
+  | nil => intro rp p b h; exact ⟨rp, rfl, h, OffEq.refl _ _⟩
+  | cons r rs ih =>
+    intro rp p b h
+    simp only [List.map_cons, List.foldl_cons, hF rp b r, scan]
+    by_cases ho : slicesOverlap ⟨pv.1, pv.2⟩ r = true
+    · simp only [ho, if_true]
+      obtain ⟨rp', h1, h2, h3⟩ := ih (pyDictSet rp res r.stop) r.stop true (lookup_pyDictSet_self _ _ _)
+      exact ⟨rp', h1, h2, (OffEq.set res rp r.stop).trans h3⟩
+    · simp only [ho, Bool.false_eq_true, if_false]
+      exact ih rp p b h
+
+
+abbrev RetTy := Option (Except String (List (Nat × List (Nat × Option (Int × Int)))))
+abbrev WSt := Bool × RetTy × Option (Int × Int) × Bool × List (Nat × Int)
+
+/-- one iteration of the `while` loop, on a pointer dict that knows the resource, a live chip and a known resource -/
+theorem loop6_step (mget : (Int × Int) → Except String (List (Nat × Int))) (G : List (Nat × List (Int × Int)))
+    (L : List ((Int × Int) × List (Nat × List (Int × Int)))) (A : List (Nat × Int)) (xy : Int × Int) (res : Nat)
+    (d : Int) (brk : Bool) (ret : RetTy) (pa : Option (Int × Int)) (po : Bool) (rp : List (Nat × Int))
+    (p cap : Int) (caps : List (Nat × Int))
+    (hp : rp.lookup res = some p) (hm : mget xy = .ok caps) (hc : caps.lookup res = some cap) :
+    PyFun.allocate_loop6 mget G L A xy res d (brk, ret, pa, po, rp) =
+      let start := align p (pyDictGetD A res 1)
+      if start + d > cap then
+        (true, some (.error "InsufficientResourceError"), some (start, start + d), false, rp)
+      else
+        let s2 := List.foldl (PyFun.allocate_loop8 res (start, start + d))
+          (List.foldl (PyFun.allocate_loop7 res (start, start + d)) (rp, false) (pyDictGetD G res []))
+          (pyDictGetD (pyDictGetD L xy []) res [])
+        (false, none, some (start, start + d), s2.2, s2.1) := by
+  have e : ∀ v al, PyFun.align v al = align v al := fun _ _ => rfl
+  unfold PyFun.allocate_loop6
+  simp only [pyDictGet_eq, hp, hm, hc, e]
+  all_goals first
+    | rfl
+    | exact (by simp only [Int.add_comm d, gt_iff_lt])
+    | exact (by simp [Int.add_comm, gt_iff_lt])
+    | (split <;> simp_all [Int.add_comm])
+
+theorem pyWhile_stop {σ : Type} (cond : σ → Bool) (body : σ → σ) (f : Nat) (s : σ) (h : cond s = false) :
+    pyWhile cond body f s = some s := by
+  cases f <;> simp [pyWhile, h]
+
+/-- the `while` loop = the model's `proposeLoop`, for every fuel (the same on both sides) -/
+theorem gen_propose (mget : (Int × Int) → Except String (List (Nat × Int))) (G : List (Nat × List (Int × Int)))
+    (L : List ((Int × Int) × List (Nat × List (Int × Int)))) (A : List (Nat × Int)) (xy : Int × Int) (res : Nat)
+    (d cap : Int) (caps : List (Nat × Int)) (g l : List Slice)
+    (hm : mget xy = .ok caps) (hc : caps.lookup res = some cap)
+    (hg : pyDictGetD G res [] = g.map encS) (hl : pyDictGetD (pyDictGetD L xy []) res [] = l.map encS) :
+    ∀ (f : Nat) (p : Int) (rp : List (Nat × Int)) (pa : Option (Int × Int)), rp.lookup res = some p →
+      (∀ start, proposeLoop (pyDictGetD A res 1) cap d g l f p = .ok start →
+        ∃ rp', pyWhile PyFun.allocate_loop6_cond (PyFun.allocate_loop6 mget G L A xy res d) f
+            ((false, none, pa, true, rp) : WSt) = some (false, none, some (start, start + d), false, rp') ∧
+          OffEq res rp rp') ∧
+      (proposeLoop (pyDictGetD A res 1) cap d g l f p = .error .insufficient →
+        ∃ pa' po' rp', pyWhile PyFun.allocate_loop6_cond (PyFun.allocate_loop6 mget G L A xy res d) f
+            ((false, none, pa, true, rp) : WSt) = some (true, some (.error "InsufficientResourceError"), pa', po', rp')) ∧
+      (proposeLoop (pyDictGetD A res 1) cap d g l f p = .error .fuel →
+        pyWhile PyFun.allocate_loop6_cond (PyFun.allocate_loop6 mget G L A xy res d) f
+            ((false, none, pa, true, rp) : WSt) = none) := by
+  intro f
+  induction f with
+  | zero =>
+    intro p rp pa hp
+    refine ⟨?_, ?_, ?_⟩
+    · intro start h; simp [proposeLoop] at h
+    · intro h; simp [proposeLoop] at h
+    · intro _; simp [pyWhile, PyFun.allocate_loop6_cond]
+  | succ f ih =>
+    intro p rp pa hp
+    have hcond : PyFun.allocate_loop6_cond ((false, none, pa, true, rp) : WSt) = true := by
+      simp [PyFun.allocate_loop6_cond]
+    rw [proposeLoop_succ, pyWhile, if_pos hcond, loop6_step mget G L A xy res d false none pa true rp p cap caps hp hm hc]
+    simp only [hg, hl]
+    by_cases hcap : align p (pyDictGetD A res 1) + d > cap
+    · simp only [hcap, if_true]
+      refine ⟨?_, ?_, ?_⟩
+      · intro start h; simp at h
+      · intro _
+        exact ⟨_, _, _, pyWhile_stop _ _ _ _ (by simp [PyFun.allocate_loop6_cond])⟩
+      · intro h; simp at h
+    · simp only [hcap, if_false]
+      obtain ⟨rp1, e1, k1, o1⟩ := gen_scan res (align p (pyDictGetD A res 1), align p (pyDictGetD A res 1) + d) _ (loop7_step _ _) g rp p false hp
+      obtain ⟨rp2, e2, k2, o2⟩ := gen_scan res (align p (pyDictGetD A res 1), align p (pyDictGetD A res 1) + d) _ (loop8_step _ _) l rp1 _ 
+        (scan ⟨align p (pyDictGetD A res 1), align p (pyDictGetD A res 1) + d⟩ g (p, false)).2 k1
+      rw [e1, e2]
+      simp only
+      cases hov : (scan ⟨align p (pyDictGetD A res 1), align p (pyDictGetD A res 1) + d⟩ l
+          (scan ⟨align p (pyDictGetD A res 1), align p (pyDictGetD A res 1) + d⟩ g (p, false))).2
+      · -- accepted
+        simp only [Bool.false_eq_true, if_false]
+        refine ⟨?_, ?_, ?_⟩
+        · intro start h
+          injection h with h
+          subst h
+          exact ⟨rp2, pyWhile_stop _ _ _ _ (by simp [PyFun.allocate_loop6_cond]), o1.trans o2⟩
+        · intro h; simp at h
+        · intro h; simp at h
+      · simp only [if_true]
+        have k2' := k2
+        rw [show ((scan ⟨align p (pyDictGetD A res 1), align p (pyDictGetD A res 1) + d⟩ g (p, false)).1,
+            (scan ⟨align p (pyDictGetD A res 1), align p (pyDictGetD A res 1) + d⟩ g (p, false)).2) =
+            scan ⟨align p (pyDictGetD A res 1), align p (pyDictGetD A res 1) + d⟩ g (p, false) from rfl] at k2'
+        obtain ⟨i1, i2, i3⟩ := ih _ rp2 (some (align p (pyDictGetD A res 1), align p (pyDictGetD A res 1) + d)) k2'
+        refine ⟨?_, i2, i3⟩
+        intro start h
+        obtain ⟨rp', w1, w2⟩ := i1 start h
+        exact ⟨rp', w1, (o1.trans o2).trans w2⟩
+
+
+/-! ### the uniform-fuel model: `allocate` with the fuel of every proposal loop given from outside -/
+
+def allocOneF (fuel : Nat) (inp : Input) (xy : Chip) (v : Vertex) (res : Res) (d : Int) (ptrs : Ptrs) :
+    Except Err (Ptrs × Entry) :=
+  if !(inp.machine.chipResources.any (·.1 == res)) then .error .keyError else
+  let a := alignment inp.constraints res
+  if a = 0 then .error .zeroDivision else
+  match inp.machine.get xy with
+  | none => .error .indexError
+  | some rsrc =>
+    match rsrc.lookup res with
+    | none => .error .keyError
+    | some cap =>
+      match proposeLoop a cap d (globalRes inp.constraints res) (localRes inp.constraints xy res) fuel (ptrs res) with
+      | .error .insufficient => .error (.insufficient res xy)
+      | .error .fuel => .error .fuel
+      | .ok start =>
+        .ok (setPtr ptrs res (start + d), ⟨v, xy, res, d, ⟨start, start + d⟩⟩)
+
+def errName : Err → String
+  | .insufficient _ _ => "InsufficientResourceError"
+  | .keyError => "KeyError"
+  | .indexError => "IndexError"
+  | .zeroDivision => "ZeroDivisionError"
+  | .fuel => "fuel"
+
+/-- `machine[xy]` as the generated definition sees it -/
+def mgetOf (m : Machine) : Int × Int → Except String (List (Nat × Int)) :=
+  fun xy => match m.get xy with
+    | some r => .ok r
+    | none => .error "IndexError"
+
+/-- the three dicts built from the constraints hold what the model reads off the constraint list -/
+structure Tables (inp : Input) (G : List (Nat × List (Int × Int)))
+    (L : List ((Int × Int) × List (Nat × List (Int × Int)))) (A : List (Nat × Int)) : Prop where
+  g : ∀ res, pyDictGetD G res [] = (globalRes inp.constraints res).map encS
+  l : ∀ xy res, pyDictGetD (pyDictGetD L xy []) res [] = (localRes inp.constraints xy res).map encS
+  a : ∀ res, pyDictGetD A res 1 = alignment inp.constraints res
+
+/-- `resource_pointers` (a dict with the keys of `machine.chip_resources`) against the model's pointer function -/
+def Rel (cr : List (Res × Int)) (rp : List (Nat × Int)) (ptrs : Ptrs) : Prop :=
+  ∀ r, rp.lookup r = if cr.any (·.1 == r) then some (ptrs r) else none
+
+theorem loop6_keyError (mget : (Int × Int) → Except String (List (Nat × Int))) (G : List (Nat × List (Int × Int)))
+    (L : List ((Int × Int) × List (Nat × List (Int × Int)))) (A : List (Nat × Int)) (xy : Int × Int) (res : Nat)
+    (d : Int) (st : WSt) (hp : st.2.2.2.2.lookup res = none) :
+    ∃ pa po rp', PyFun.allocate_loop6 mget G L A xy res d st = (true, some (.error "KeyError"), pa, po, rp') := by
+  obtain ⟨brk, ret, pa, po, rp⟩ := st
+  simp only at hp
+  unfold PyFun.allocate_loop6
+  simp only [pyDictGet_eq, hp]
+  exact ⟨_, _, _, rfl⟩
+
+theorem loop6_noChip (mget : (Int × Int) → Except String (List (Nat × Int))) (G : List (Nat × List (Int × Int)))
+    (L : List ((Int × Int) × List (Nat × List (Int × Int)))) (A : List (Nat × Int)) (xy : Int × Int) (res : Nat)
+    (d : Int) (st : WSt) (p : Int) (e : String) (hp : st.2.2.2.2.lookup res = some p) (hm : mget xy = .error e) :
+    ∃ pa po rp', PyFun.allocate_loop6 mget G L A xy res d st = (true, some (.error e), pa, po, rp') := by
+  obtain ⟨brk, ret, pa, po, rp⟩ := st
+  simp only at hp
+  unfold PyFun.allocate_loop6
+  simp only [pyDictGet_eq, hp, hm]
+  exact ⟨_, _, _, rfl⟩
+
+theorem loop6_noRes (mget : (Int × Int) → Except String (List (Nat × Int))) (G : List (Nat × List (Int × Int)))
+    (L : List ((Int × Int) × List (Nat × List (Int × Int)))) (A : List (Nat × Int)) (xy : Int × Int) (res : Nat)
+    (d : Int) (st : WSt) (p : Int) (caps : List (Nat × Int)) (hp : st.2.2.2.2.lookup res = some p)
+    (hm : mget xy = .ok caps) (hc : caps.lookup res = none) :
+    ∃ pa po rp', PyFun.allocate_loop6 mget G L A xy res d st = (true, some (.error "KeyError"), pa, po, rp') := by
+  obtain ⟨brk, ret, pa, po, rp⟩ := st
+  simp only at hp
+  unfold PyFun.allocate_loop6
+  simp only [pyDictGet_eq, hp, hm, hc]
+  exact ⟨_, _, _, rfl⟩
+
+abbrev VA := List (Nat × Option (Int × Int))
+
+/-- what the body of the resource loop does with the final state of the `while` loop -/
+theorem loop5_unfold (mget : (Int × Int) → Except String (List (Nat × Int))) (fuel : Nat)
+    (G : List (Nat × List (Int × Int))) (L : List ((Int × Int) × List (Nat × List (Int × Int)))) (A : List (Nat × Int))
+    (xy : Int × Int) (rp : List (Nat × Int)) (va : VA) (res : Nat) (d : Int) :
+    PyFun.allocate_loop5 mget fuel G L A xy (false, none, rp, va) (res, d) =
+      match pyWhile PyFun.allocate_loop6_cond (PyFun.allocate_loop6 mget G L A xy res d) fuel
+          ((false, none, none, true, rp) : WSt) with
+      | none => (true, some (.error "fuel"), rp, va)
+      | some (_, some r, _, _, rp') => (true, some r, rp', va)
+      | some (_, none, pa, _, rp') =>
+        match pyOptGet pa with
+        | .error e => (true, some (.error e), rp', pyDictSet va res pa)
+        | .ok t => (false, none, pyDictSet rp' res t.2, pyDictSet va res pa) := by
+  unfold PyFun.allocate_loop5
+  simp only [Bool.false_eq_true, if_false]
+  generalize pyWhile PyFun.allocate_loop6_cond _ fuel _ = w
+  rcases w with _ | ⟨b, r, pa, po, rp'⟩
+  · rfl
+  · cases r with
+    | some r => rfl
+    | none => simp only []; cases pyOptGet pa <;> rfl
+
+theorem gen_allocOne {inp : Input} {G : List (Nat × List (Int × Int))}
+    {L : List ((Int × Int) × List (Nat × List (Int × Int)))} {A : List (Nat × Int)} (T : Tables inp G L A)
+    (hA : ∀ res, alignment inp.constraints res ≠ 0) (fuel : Nat) (hf : 0 < fuel) (xy : Chip) (v : Vertex) (res : Res)
+    (d : Int) (rp : List (Nat × Int)) (ptrs : Ptrs) (va : VA) (hr : Rel inp.machine.chipResources rp ptrs) :
+    (∀ ptrs' e, allocOneF fuel inp xy v res d ptrs = .ok (ptrs', e) →
+      ∃ rp', PyFun.allocate_loop5 (mgetOf inp.machine) fuel G L A xy (false, none, rp, va) (res, d)
+          = (false, none, rp', pyDictSet va res (some (encS e.s))) ∧ Rel inp.machine.chipResources rp' ptrs') ∧
+    (∀ err, allocOneF fuel inp xy v res d ptrs = .error err →
+      ∃ rp' va', PyFun.allocate_loop5 (mgetOf inp.machine) fuel G L A xy (false, none, rp, va) (res, d)
+          = (true, some (.error (errName err)), rp', va')) := by
+  obtain ⟨f, rfl⟩ : ∃ f, fuel = f + 1 := ⟨fuel - 1, by omega⟩
+  have hcond : ∀ rp : List (Nat × Int), PyFun.allocate_loop6_cond ((false, none, none, true, rp) : WSt) = true := by
+    intro rp; simp [PyFun.allocate_loop6_cond]
+  have hstop : ∀ (st : WSt) e pa po rp', st = (true, some (.error e), pa, po, rp') →
+      pyWhile PyFun.allocate_loop6_cond (PyFun.allocate_loop6 (mgetOf inp.machine) G L A xy res d) f st = some st := by
+    intro st e pa po rp' h
+    apply pyWhile_stop
+    subst h
+    simp [PyFun.allocate_loop6_cond]
+  rw [loop5_unfold]
+  by_cases hk : inp.machine.chipResources.any (·.1 == res) = true
+  swap
+  · -- resource_pointers[resource]: KeyError
+    have hk' : inp.machine.chipResources.any (·.1 == res) = false := Bool.eq_false_iff.mpr hk
+    have hv : allocOneF (f + 1) inp xy v res d ptrs = .error .keyError := by simp [allocOneF, hk']
+    have hp : rp.lookup res = none := by rw [hr res]; simp [hk']
+    obtain ⟨pa, po, rp', e⟩ := loop6_keyError (mgetOf inp.machine) G L A xy res d (false, none, none, true, rp) hp
+    rw [hv, pyWhile, if_pos (hcond rp), e, hstop _ _ _ _ _ rfl]
+    refine ⟨fun _ _ h => by simp at h, ?_⟩
+    intro err h
+    injection h with h; subst h
+    exact ⟨_, _, rfl⟩
+  have hp : rp.lookup res = some (ptrs res) := by rw [hr res]; simp [hk]
+  cases hmg : inp.machine.get xy with
+  | none =>
+    have hv : allocOneF (f + 1) inp xy v res d ptrs = .error .indexError := by simp [allocOneF, hk, hA res, hmg]
+    have hm : mgetOf inp.machine xy = .error "IndexError" := by simp [mgetOf, hmg]
+    obtain ⟨pa, po, rp', e⟩ := loop6_noChip (mgetOf inp.machine) G L A xy res d (false, none, none, true, rp) _ _ hp hm
+    rw [hv, pyWhile, if_pos (hcond rp), e, hstop _ _ _ _ _ rfl]
+    refine ⟨fun _ _ h => by simp at h, ?_⟩
+    intro err h
+    injection h with h; subst h
+    exact ⟨_, _, rfl⟩
+  | some caps =>
+    have hm : mgetOf inp.machine xy = .ok caps := by simp [mgetOf, hmg]
+    cases hc : caps.lookup res with
+    | none =>
+      have hv : allocOneF (f + 1) inp xy v res d ptrs = .error .keyError := by simp [allocOneF, hk, hA res, hmg, hc]
+      obtain ⟨pa, po, rp', e⟩ := loop6_noRes (mgetOf inp.machine) G L A xy res d (false, none, none, true, rp) _ _ hp hm hc
+      rw [hv, pyWhile, if_pos (hcond rp), e, hstop _ _ _ _ _ rfl]
+      refine ⟨fun _ _ h => by simp at h, ?_⟩
+      intro err h
+      injection h with h; subst h
+      exact ⟨_, _, rfl⟩
+    | some cap =>
+      obtain ⟨w1, w2, w3⟩ := gen_propose (mgetOf inp.machine) G L A xy res d cap caps
+        (globalRes inp.constraints res) (localRes inp.constraints xy res) hm hc (T.g res) (T.l xy res)
+        (f + 1) (ptrs res) rp none hp
+      rw [T.a res] at w1 w2 w3
+      cases hpl : proposeLoop (alignment inp.constraints res) cap d (globalRes inp.constraints res)
+          (localRes inp.constraints xy res) (f + 1) (ptrs res) with
+      | error pe =>
+        cases pe with
+        | insufficient =>
+          have hv : allocOneF (f + 1) inp xy v res d ptrs = .error (.insufficient res xy) := by
+            simp [allocOneF, hk, hA res, hmg, hc, hpl]
+          obtain ⟨pa', po', rp', e⟩ := w2 hpl
+          rw [hv, e]
+          refine ⟨fun _ _ h => by simp at h, ?_⟩
+          intro err h
+          injection h with h; subst h
+          exact ⟨_, _, rfl⟩
+        | fuel =>
+          have hv : allocOneF (f + 1) inp xy v res d ptrs = .error .fuel := by
+            simp [allocOneF, hk, hA res, hmg, hc, hpl]
+          rw [hv, w3 hpl]
+          refine ⟨fun _ _ h => by simp at h, ?_⟩
+          intro err h
+          injection h with h; subst h
+          exact ⟨_, _, rfl⟩
+      | ok start =>
+        have hv : allocOneF (f + 1) inp xy v res d ptrs =
+            .ok (setPtr ptrs res (start + d), ⟨v, xy, res, d, ⟨start, start + d⟩⟩) := by
+          simp [allocOneF, hk, hA res, hmg, hc, hpl]
+        obtain ⟨rp', e, off⟩ := w1 start hpl
+        rw [hv, e]
+        refine ⟨?_, fun _ h => by simp at h⟩
+        intro ptrs' en h
+        injection h with h
+        injection h with h1 h2
+        subst h1; subst h2
+        refine ⟨pyDictSet rp' res (start + d), rfl, ?_⟩
+        intro r
+        by_cases hrr : r = res
+        · subst hrr
+          simp [lookup_pyDictSet_self, hk, setPtr]
+        · rw [lookup_pyDictSet_ne _ _ hrr, off r hrr, hr r]
+          simp [setPtr, hrr]
+
+/-! ### the constraint collection loop -/
+
+def encC : Constraint → PyFun.allocate_constraints_elem
+  | .reserve r s loc => .ReserveResourceConstraint r (encS s) loc
+  | .align r a => .AlignResourceConstraint r a
+  | .other => .other
+
+theorem loop1_step (G : List (Nat × List (Int × Int))) (L : List ((Int × Int) × List (Nat × List (Int × Int))))
+    (A : List (Nat × Int)) (c : Constraint) :
+    PyFun.allocate_loop1 (G, L, A) (encC c) =
+      match c with
+      | .reserve r s none => (pyDictMod G r [] (fun l => l ++ [encS s]), L, A)
+      | .reserve r s (some loc) =>
+        (G, pyDictMod L loc [] (fun d => pyDictMod d r [] (fun l => l ++ [encS s])), A)
+      | .align r a => (G, L, pyDictSet A r a)
+      | .other => (G, L, A) := by
+  cases c with
+  | reserve r s loc => cases loc <;> rfl
+  | align r a => rfl
+  | other => rfl
+
+theorem getD_pyDictMod {κ α : Type} [BEq κ] [LawfulBEq κ] [DecidableEq κ] (d : List (κ × α)) (k k' : κ) (dflt : α) (f : α → α) :
+    pyDictGetD (pyDictMod d k dflt f) k' dflt = if k' = k then f (pyDictGetD d k dflt) else pyDictGetD d k' dflt := by
+  simp only [pyDictGetD, lookup_pyDictMod]
+  by_cases h : k' = k
+  · subst h; simp
+  · have : (k' == k) = false := by simpa using h
+    simp [h, this]
+
+theorem getD_pyDictSet {κ α : Type} [BEq κ] [LawfulBEq κ] [DecidableEq κ] (d : List (κ × α)) (k k' : κ) (dflt v : α) :
+    pyDictGetD (pyDictSet d k v) k' dflt = if k' = k then v else pyDictGetD d k' dflt := by
+  simp only [pyDictGetD, lookup_pyDictSet]
+  by_cases h : k' = k
+  · subst h; simp
+  · have : (k' == k) = false := by simpa using h
+    simp [h, this]
+
+/-- the step of `alignment` -/
+def alignStep (res : Res) (a : Int) (c : Constraint) : Int :=
+  match c with
+  | .align r al => if r = res then al else a
+  | _ => a
+
+theorem alignment_eq (cs : List Constraint) (res : Res) : alignment cs res = cs.foldl (alignStep res) 1 := rfl
+
+/-- the generated constraint loop, started from any three dicts: what the three dicts answer afterwards -/
+theorem gen_collect : ∀ (cs : List Constraint) (G : List (Nat × List (Int × Int)))
+    (L : List ((Int × Int) × List (Nat × List (Int × Int)))) (A : List (Nat × Int)),
+    (∀ res, pyDictGetD (List.foldl PyFun.allocate_loop1 (G, L, A) (cs.map encC)).1 res []
+        = pyDictGetD G res [] ++ (globalRes cs res).map encS) ∧
+    (∀ xy res, pyDictGetD (pyDictGetD (List.foldl PyFun.allocate_loop1 (G, L, A) (cs.map encC)).2.1 xy []) res []
+        = pyDictGetD (pyDictGetD L xy []) res [] ++ (localRes cs xy res).map encS) ∧
+    (∀ res, pyDictGetD (List.foldl PyFun.allocate_loop1 (G, L, A) (cs.map encC)).2.2 res 1
+        = cs.foldl (alignStep res) (pyDictGetD A res 1)) := by
+  intro cs
+  induction cs with
+  | nil => intro G L A; simp [globalRes, localRes]
+  | cons c cs ih =>
+    intro G L A
+    simp only [List.map_cons, List.foldl_cons, loop1_step]
+    cases c with
+    | reserve r s loc =>
+      cases loc with
+      | none =>
+        obtain ⟨i1, i2, i3⟩ := ih (pyDictMod G r [] (fun l => l ++ [encS s])) L A
+        refine ⟨?_, ?_, ?_⟩
+        · intro res
+          rw [i1 res, getD_pyDictMod]
+          by_cases h : res = r
+          · subst h; simp [globalRes, List.filterMap_cons]
+          · have h' : ¬ r = res := fun e => h e.symm
+            simp [globalRes, List.filterMap_cons, h, h']
+        · intro xy res
+          rw [i2 xy res]
+          simp [localRes, List.filterMap_cons]
+        · intro res
+          rw [i3 res]; rfl
+      | some loc =>
+        obtain ⟨i1, i2, i3⟩ := ih G (pyDictMod L loc [] (fun d => pyDictMod d r [] (fun l => l ++ [encS s]))) A
+        refine ⟨?_, ?_, ?_⟩
+        · intro res
+          rw [i1 res]
+          simp [globalRes, List.filterMap_cons]
+        · intro xy res
+          rw [i2 xy res, getD_pyDictMod]
+          by_cases h : xy = loc
+          · subst h
+            rw [if_pos rfl, getD_pyDictMod]
+            by_cases h2 : res = r
+            · subst h2; simp [localRes, List.filterMap_cons]
+            · have h' : ¬ r = res := fun e => h2 e.symm
+              simp [localRes, List.filterMap_cons, h2, h']
+          · have h' : ¬ loc = xy := fun e => h e.symm
+            simp [localRes, List.filterMap_cons, h, h']
+        · intro res
+          rw [i3 res]; rfl
+    | align r a =>
+      obtain ⟨i1, i2, i3⟩ := ih G L (pyDictSet A r a)
+      refine ⟨?_, ?_, ?_⟩
+      · intro res; rw [i1 res]; simp [globalRes, List.filterMap_cons]
+      · intro xy res; rw [i2 xy res]; simp [localRes, List.filterMap_cons]
+      · intro res
+        rw [i3 res, getD_pyDictSet]
+        by_cases h : res = r
+        · subst h; simp [alignStep]
+        · have h' : ¬ r = res := fun e => h e.symm
+          simp [alignStep, h, h']
+    | other =>
+      obtain ⟨i1, i2, i3⟩ := ih G L A
+      refine ⟨?_, ?_, ?_⟩
+      · intro res; rw [i1 res]; simp [globalRes, List.filterMap_cons]
+      · intro xy res; rw [i2 xy res]; simp [localRes, List.filterMap_cons]
+      · intro res; rw [i3 res]; rfl
+
+/-- **the three dicts that `allocate` builds from the constraints hold exactly what the model reads off the
+constraint list** (the hypothesis `Tables` of `gen_allocOne`) -/
+theorem gen_tables (inp : Input) :
+    Tables inp (List.foldl PyFun.allocate_loop1 ([], [], []) (inp.constraints.map encC)).1
+      (List.foldl PyFun.allocate_loop1 ([], [], []) (inp.constraints.map encC)).2.1
+      (List.foldl PyFun.allocate_loop1 ([], [], []) (inp.constraints.map encC)).2.2 := by
+  obtain ⟨i1, i2, i3⟩ := gen_collect inp.constraints [] [] []
+  refine ⟨?_, ?_, ?_⟩
+  · intro res; rw [i1 res]; simp [pyDictGetD]
+  · intro xy res; rw [i2 xy res]; simp [pyDictGetD]
+  · intro res; rw [i3 res, alignment_eq]; simp [pyDictGetD]
 
 end Rig.C05
